@@ -1,6 +1,6 @@
 #!/bin/sh
 # tools/run_thorough_iso.sh <props...>: run the thorough tier of the given checks in an isolated copy (/work/thor)
-W=/work/thor
+W=${THOR_DIR:-/work/thor}
 mkdir -p $W
 if [ ! -d $W/repo ]; then git -C /repo worktree add -q --detach $W/repo HEAD || exit 2; fi
 git -C $W/repo checkout -q --detach "$(git -C /repo rev-parse HEAD)"; git -C $W/repo checkout -- .
